@@ -22,6 +22,7 @@ AllocPats ==
     [] PatSet = "c02"   -> {<<0, 1>>, <<0, 1, 0>>}
     [] PatSet = "q"     -> {<<0, 1, 0>>}
     [] PatSet = "sw"    -> {<<0, 1, 0>>}
+    [] PatSet = "sw2"   -> {<<0, 1, 0>>}
     [] PatSet = "sim"   -> {<<>>, <<1>>, <<0, 1>>, <<0, 1, 2>>, <<0, 1, 2, 0>>, <<1, 1, 0, 2, 1>>, <<2, 0, 1, 1, 0, 2>>}
 
 NewH == CHOOSE d \in Handles \ Live : \A e \in Handles \ Live : d <= e
@@ -48,8 +49,13 @@ Starts(h) == Pick(0..(Size(h) + 1))
 \* block), the second is a read of one octet somewhere (it moves the offset cache of the real code), then
 \* any call, then the last read: defects that need a cache pointing into a later segment
 SW == PatSet = "sw"
+\* PatSet = "sw2" (C02): two blocks; a duplicate of one of them (the sibling that must stay intact), an append
+\* (a segmented block whose later segment shares its area with the sibling), then any cutting / growing call
+\* inside the block; the final content of EVERY handle is part of the behaviour
+SW2 == PatSet = "sw2"
 On(op) == /\ op \in Ops /\ ((IsLast /\ LastOps # {}) => op \in LastOps)
           /\ (SW /\ step = 0 => op = "append") /\ (SW /\ step = 1 => op = "rd1")
+          /\ (SW2 /\ step = 0 => op = "dup") /\ (SW2 /\ step = 1 => op = "append")
 ObsOn(op) == On(op) /\ (ObsLast => (IsLast \/ (SW /\ step = 1)))
 FindWords == {<<a, b>> : a \in Letters, b \in Letters} \cup {<<0, 1, 1>>, <<1, 0, 1>>}
 MatchArgs == {<<<<0>>, <<15>>>>, <<<<0, 1>>, <<15, 15>>>>, <<<<1>>, <<1>>>>, <<<<0, 0>>, <<0, 2>>>>,
